@@ -390,7 +390,8 @@ def oracle_stream(pid, sc, ob):
 # ---------------------------------------------------------------- Accept-Encoding negotiation and streaming_body headers
 def py_should_gzip(value):
     """RFC 7231 5.3.4 preference of gzip vs identity, written from C16.  None = the value is outside the grammar the
-    oracle judges (ungrammatical weight, upper-case tokens, repeated codings): no expectation."""
+    oracle judges (ungrammatical weight): no expectation.  Content-coding names (RFC 7231 3.1.2.1) and the ABNF literal `q=`
+    are case-insensitive."""
     if value is None:
         return False
     q = {}
@@ -400,11 +401,12 @@ def py_should_gzip(value):
             continue
         coding, sep, par = el.partition(";")
         coding = coding.strip(" \t")
-        if not _re.fullmatch(r"[a-z0-9*!#$%&'+.^_`|~-]+", coding):
+        if not _re.fullmatch(r"[A-Za-z0-9*!#$%&'+.^_`|~-]+", coding):
             return None
+        coding = coding.lower()
         w = 1000
         if sep:
-            m = _re.fullmatch(r"q=(0(\.\d{0,3})?|1(\.0{0,3})?)", par.strip(" \t"))
+            m = _re.fullmatch(r"[qQ]=(0(\.[0-9]{0,3})?|1(\.0{0,3})?)", par.strip(" \t"))
             if not m:
                 return None
             t = m.group(1)
@@ -434,6 +436,8 @@ def fam_accept_encoding():
         for perm in itertools.permutations(t):
             vals.append(", ".join(perm))
     vals += ["gzip, gzip;q=0", "gzip;q=0, gzip", "gzip, identity, gzip;q=0.5", "gzip;q=0.5, identity;q=0, identity", "*, *;q=0", "identity, gzip;q=0.5, identity;q=0.001", "*;q=0, *", "gzip;q=0.3, gzip;q=0.3"]
+    vals += ["GZIP", "Gzip;q=0.5", "GZIP;q=0, *", "gzip;q=0, GZIP", "GZIP, gzip;q=0", "gzip, IDENTITY;q=0", "Identity;q=0, gzip;q=0.001", "gzip;Q=0", "gzip;Q=0.5, identity;Q=0.6", "*;Q=0", "GZIP;Q=0, *;q=1",
+             "br, GZIP;q=0.001", "IDENTITY, gzip;q=0.9", "gzip;q=0.5, Identity;q=0.6"]
     vals += ["gzip;q=2", "gzip;q=0.5555", "gzip;x=1", "gzip;q=", "gzip;", ";q=1", "gzip;q=1.001", "GZIP", "gzip;Q=1", "gzip\t;\tq=0", "\tgzip\t", "gzip,", ",gzip", "gzip,,identity;q=0"]
     out = []
     for k, v in enumerate(vals):
